@@ -96,7 +96,8 @@ PROPS['C01'] = dict(
     theorems=['FV.C01_Message', 'FV.C01_MessageExt', 'FV.C01_Forward', 'FV.C01_Packed', 'FV.C01_Entry', 'FV.C01_EntryExt',
               'FV.C01_Options', 'FV.C01_Ack', 'FV.C01_HeloOpts', 'FV.C01_Helo', 'FV.C01_Ping', 'FV.C01_Pong',
               'FV.C01_alt_record', 'FV.C01_concat_Message', 'FV.C01_alt_Message', 'FV.C01_alt_MessageExt', 'FV.C01_alt_Forward',
-              'FV.C01_alt_Packed', 'FV.C01_alt_Options', 'FV.parse_inv', 'FV.classify_imm_nil_all'],
+              'FV.C01_alt_Packed', 'FV.C01_alt_Options', 'FV.C01_alt_Ack', 'FV.C01_alt_Helo', 'FV.C01_alt_Ping', 'FV.C01_alt_Pong',
+              'FV.parse_inv', 'FV.classify_imm_nil_all', 'FV.readFields_complete'],
     suites=[_RT_SUITE, _CODEC_SUITE],
     rule=_RT_RULE + ' || ' + _CODEC_RULE,
     explanation="C01_T: for every representable message, T.unmarshal p recv (T.marshal m ++ x) = ok (norm m) x for both "
@@ -284,10 +285,12 @@ PROPS['C02']['assumptions'] = PROPS['C02']['assumptions'] + _TCP_ASSUME
 PROPS['C04'] = dict(
     lean_modules=['FluentVerif.Props.C04'],
     theorems=['FV.Tcp.C04_success_iff', 'FV.Tcp.C04_bad_response', 'FV.Tcp.C04_deadline_armed', 'FV.Tcp.C04_chunk_on_wire',
-              'FV.Tcp.C04_sequences'],
+              'FV.Tcp.C04_sequences', 'FV.Tcp.C04_conforming_ack'],
     suites=[_TCP_SUITE],
     rule=_TCP_RULE,
-    explanation="C04_success_iff: with acks required, Send = ok iff every byte was accepted and the response starts with a map the "
+    explanation="C04_conforming_ack: a map with string keys the specification parser finds at the front of the response, in any legal "
+                "msgpack form with further entries of any shape, whose last ack entry is the chunk => Send = ok. "
+                "C04_success_iff: with acks required, Send = ok iff every byte was accepted and the response starts with a map the "
                 "ack decoder accepts whose ack equals the chunk; C04_chunk_on_wire (via C12): that chunk is the one the "
                 "specification parser finds in the bytes on the wire; C04_deadline_armed: a deadline is set between the write "
                 "and the read. Oracle on the real run: Send=ok iff the spec-level ack of the response equals the spec-level "
